@@ -127,12 +127,15 @@ for shape, (text, ctx, sinks) in SHAPES.items():
     case(f"--validate+--run-space-dry-run/{shape}", text, ctx + ["--validate", "--run-space-dry-run"], sinks, "nothing", 0)
     if len(sinks) == 3:
         case(f"--run-space-max-runs-exceeded/{shape}", text, ctx + ["--run-space-max-runs", "2"], sinks, "nothing", 3)
+        case(f"--run-space-max-runs-0/{shape}", text, ctx + ["--run-space-max-runs", "0"], sinks, "nothing", 3)
+        case(f"--run-space-max-runs-1/{shape}", text, ctx + ["--run-space-max-runs", "1"], sinks, "nothing", 3)
         case(f"--run-space-max-runs-sufficient/{shape}", text, ctx + ["--run-space-max-runs", "3"], sinks, "all-or-rejected" if nested else "all")
     if "run_space:" in text and shape != "empty-run_space":
         dry = text.replace("run_space:\n", "run_space:\n" + (" " * (text.split("run_space:")[0].split("\n")[-1].count(" ") + 2)) + "dry_run: true\n", 1)
         case(f"yaml-dry_run/{shape}", dry, ctx, sinks, "nothing", 0)
         capped = text.replace("run_space:\n", "run_space:\n" + (" " * (text.split("run_space:")[0].split("\n")[-1].count(" ") + 2)) + "max_runs: 2\n", 1)
         case(f"yaml-max_runs-exceeded/{shape}", capped, ctx, sinks, "nothing", 3)
+        case(f"yaml-max_runs-0/{shape}", capped.replace("max_runs: 2", "max_runs: 0"), ctx, sinks, "nothing", 3)
 
 GOODP = HEAD + "pipeline:\n" + nodes(2)
 INVALID = {
@@ -163,7 +166,7 @@ for n in ((1, 2, 3, 4) if thorough else (1, 2, 3)):
 
 import shutil
 shutil.rmtree(root, ignore_errors=True)
-print(json.dumps({"bound": "run_space block placement {absent, empty, top-level, nested} x flags {none, --validate, --dry-run, --run-space-dry-run, +max-runs, yaml dry_run, cap exceeded / sufficient} + 11 invalid configurations + failing run k of n (n <= 3 quick, 4 thorough)",
+print(json.dumps({"bound": "run_space block placement {absent, empty, top-level, nested} x flags {none, --validate, --dry-run, --run-space-dry-run, +max-runs, yaml dry_run, cap exceeded (incl. caps 0 and 1) / sufficient} + 11 invalid configurations + failing run k of n (n <= 3 quick, 4 thorough)",
                   "evaluations": evaluations, "distinct_nontrivial": len(distinct),
                   "rule": "distinct = case name; execution observed through sink files and JSONL trace records written by the real CLI",
                   "failures": failures[:40], "samples": samples}, default=str))
